@@ -101,6 +101,42 @@ def check_ops(ops, where, viol):
       return
 
 
+def check_cover(blocks, opcodes, dis_code, where, viol):
+  """Each instruction is in exactly one block of the list that compute_order connects and orders."""
+  import collections  # pylint: disable=g-import-not-at-top
+  ops = opcodes.build_opcodes(dis_code)
+  blocks.add_pop_block_targets(ops)
+  pb = set()
+  bl = blocks._split_bytecode(ops, pb, dis_code.python_version)
+  if dis_code.python_version >= (3, 12):
+    bl = blocks._remove_jump_back_block(bl)
+    bl = blocks._remove_jmp_to_get_anext_and_merge(bl, pb)
+  cnt = collections.Counter(id(o) for b in bl for o in b.code)
+  runs, cur = [], []
+  for o in ops:
+    c = cnt[id(o)]
+    if c > 1:
+      viol(dict(kind='cover', cause='instruction-in-two-blocks', what='%s at %d is in %d blocks' % (o.name, o.index, c), where=where))
+    if c == 0:
+      cur.append(o)
+    elif cur:
+      runs.append(cur)
+      cur = []
+  if cur:
+    runs.append(cur)
+  for r in runs:
+    names = [o.name for o in r]
+    if (set(names) <= {'CLEANUP_THROW', 'JUMP_BACKWARD'} and names[-1] == 'JUMP_BACKWARD'
+        and all(names[i + 1] == 'JUMP_BACKWARD' for i in range(len(names) - 1) if names[i] == 'CLEANUP_THROW')):
+      # by design (_remove_jump_back_block): known finding F10
+      viol(dict(kind='cover', cause='F10-send-exception-block-removed',
+                what='%s at %d..%d are in no block (exception edge of a SEND loop / back jump to GET_ANEXT, removed on purpose)' % ('/'.join(names[:2]), r[0].index, r[-1].index),
+                where=where))
+    else:
+      viol(dict(kind='cover', cause='instruction-in-no-block',
+                what='instruction(s) %s at index %d..%d are in no basic block' % (','.join(names), r[0].index, r[-1].index), where=where))
+
+
 def check_split(blocks, opcodes, ops, ver, where, viol):
   """The contract of _split_bytecode, evaluated natively (only under its precondition)."""
   if ver >= (3, 12) and any(isinstance(o, (opcodes.SEND, opcodes.GET_ANEXT)) for o in ops):
@@ -130,7 +166,12 @@ def main():
   violations = []
 
   def viol(v):
-    if len(violations) < 10:
+    if v.get('cause', '').startswith('F10'):
+      if any(w.get('cause') == v['cause'] for w in violations):
+        return
+      violations.append(v)
+      return
+    if len([w for w in violations if not w.get('cause', '').startswith('F10')]) < 10:
       violations.append(v)
   ver = (3, 12)
   files = sorted(glob.glob(os.path.join(STDLIB, '*.py')))
@@ -174,6 +215,7 @@ def main():
     for dis_code, ops in captured:
       where = '%s:%s' % (name, dis_code.code.co_name)
       check_ops(ops, where, viol)
+      check_cover(blocks, opcodes, dis_code, where, viol)
       # a separately built opcode list for the split contract (compute_order links the blocks it gets)
       ops2 = opcodes.build_opcodes(dis_code)
       blocks.add_pop_block_targets(ops2)
@@ -185,7 +227,7 @@ def main():
       ncode += 1
       check_code(blocks, opcodes, c, '%s:%s' % (name, c.name), viol)
       todo.extend(k for k in c.consts if isinstance(k, blocks.OrderedCode))
-    if len(violations) >= 10:
+    if len(violations) >= 11:
       break
   print(json.dumps(dict(
       violations=violations,
